@@ -130,7 +130,9 @@ def check(case, ctx):
     ta = F(1e-9) * F(scale) ** 2
     # binary-exact families: every float operation of the code is exact, so there is no gray zone
     exact_family = bool(case.get("exact"))
-    gz = F(0) if exact_family else F(1e-12) * F(scale)
+    import math
+    maxc = max(abs(case["a"][0]) + case["a"][2], abs(case["a"][1]) + case["a"][3], abs(case["b"][0]) + case["b"][2], abs(case["b"][1]) + case["b"][3])
+    gz = F(0) if exact_family else max(F(1e-12) * F(scale), F(8 * math.ulp(maxc)))
 
     def isgray(v):
         return gz > 0 and abs(v) <= gz
